@@ -51,6 +51,12 @@ CHECKS = {
  "C15": ("mc_kernels", "4/C15", "exhaustive enumeration of slice triples with independent lengths 0..=10 (alphabet products for short, run shapes for long slices), word primitives on the boundary alphabet squared x carries, shifts by every amount 0..=63, vs BigUint",
          "addmul/addmul_n, the n x 1 kernels, adc/sbb families, small shifts and cmp are compared with exact integer results including the carry / borrow / overflow outputs.",
          "Same bounds as C14. Amount 0 is in contract for the small shifts (only stated precondition is amount < 64)."),
+ "C16": ("mc_codec", "4/C16", "exhaustive enumeration of the mode-boundary value universe (2^k+d for every k, small values in wide types) over 22-26 widths x every integration: encoder bytes vs independent reference codecs (and vs the codec crate's own u128 encoding), exact lengths / hints / maxima, decode(encode(v)) = v, postgres round trips per column type, fixed-width primitive-types / bytemuck / ark-ff conversions",
+         "Every enabled integration is executed on a complete finite value universe per width and compared byte-for-byte with reference codecs written from the format definitions; round trips and advertised sizes are checked per case.",
+         "Values from the stated universes, widths from the stated grid. JSON tokenisation and the codec crates' framing are trusted; diesel/sqlx/pyo3/bn-rs are not named by the property and not built."),
+ "C17": ("mc_codec", "4/C17", "exhaustive enumeration of ALL byte strings of length <= 2 (3 thorough) and of every single-field mutation of every valid encoding (incl. out-of-range values and non-minimal forms), each input fed to EVERY decoder, vs reference readers that say what the bytes denote; termination watchdog",
+         "No decoder may panic or hang; an accepted value must be the denoted one, canonical and < 2^BITS; alloy-rlp / fastrlp / DER must reject everything but the reference encoding. ~1.6*10^8 decoder executions in the quick tier.",
+         "Inputs longer than 3 bytes are single mutations of valid encodings, not all strings. C17 never requires acceptance (that is C16)."),
 }
 
 NOT_YET = {}
